@@ -6,4 +6,5 @@ cd /verif/harness
 export CARGO_NET_OFFLINE=true
 mkdir -p /verif/work /verif/evidence /verif/replays
 cargo build --release --offline
+CARGO_PROFILE_DEV_OPT_LEVEL=2 CARGO_PROFILE_DEV_DEBUG=0 CARGO_TARGET_DIR=/verif/target/cli cargo build --offline -p numbat-cli --manifest-path /repo/Cargo.toml
 echo "setup ok"
